@@ -75,6 +75,12 @@ CHECKS = {
     design="5/C03",
     note="Trusted: Lean kernel; the fibertree contract of splitEqual/splitNonUniform/flattenRanks (= minifiber, compared on random fibers/tensors); per-program correctness rests on execution over sampled inputs and specifications.",
     technique="Lean 4 proofs of the leader/follower grouping and flatten algebra (partial) + differential execution of the real emitted programs against the unmapped program and a dense oracle"),
+ "C04": dict(
+    category="proof",
+    text="PARTIAL. Lean theorems (Props/C04), the arithmetic core for every stride a != 0, offset, extent and partition-coordinate list: project_inverse/project_hits/project_injective (the coordinates kept by project+prune correspond one-to-one to the index values q with w = a*q + r: nothing missing, nothing met twice, in exact arithmetic), tiling (the intervals make_interval builds tile [lo, Q): every q in exactly one, provided every partition coordinate is below the extent), unclipped_counterexample (that hypothesis is necessary), halo_cover (the window splitUniform(a*size, post_halo=b*(S-1)) provides contains every needed input coordinate). NOT proved: the composition with the loop nest. Decided by execution: every generated G4 specification is run against the dense oracle on sampled inputs and all output coordinates must be below the extent. The claimed class is: dyadic coefficients, at most one partition level on a rank with a halo, partition coordinates below the extent; outside it the unchanged compiler violates the property (known findings with witnesses); the evidence lists how many sampled specifications fall inside the class.",
+    design="5/C04",
+    note="Trusted: Lean kernel; IEEE-754 agreement of float and exact evaluation for dyadic divisors (compared on random fibers); minifiber's reading of project/prune/halos; correctness per program rests on execution over sampled inputs. Known findings: interval not clipped to the extent, float projection for non-dyadic coefficients, halo elements counted twice with two partition levels.",
+    technique="Lean 4 proofs of the projection/tiling/halo arithmetic (partial) + differential execution of the real emitted programs against a dense oracle with extent checks"),
 }
 
 NOT_YET = {}
